@@ -425,6 +425,54 @@ MUTANTS = {
         "    outputs = tf.keras.backend.conv1d(\n        inputs,\n        "
         "quantized_kernel,\n        strides=self.strides[0],\n        "
         "padding=op_padding,\n")]),
+    "m85_sample_ranges_names_skip_conv1d": dict(expect=["C18"], edits=[E(
+        "qkeras/estimate.py",
+        "  layer_names = [\n      layer.name for layer in model.layers\n"
+        "      if (isinstance(layer, QDepthwiseConv2D) or isinstance(layer, "
+        "QConv2D) or\n          isinstance(layer, QConv1D) or "
+        "isinstance(layer, QDense))\n  ]\n",
+        "  layer_names = [\n      layer.name for layer in model.layers\n"
+        "      if (isinstance(layer, QDepthwiseConv2D) or isinstance(layer, "
+        "QConv2D) or\n          isinstance(layer, QDense))\n  ]\n")]),
+    "m86_sampled_size_from_signed_max": dict(expect=["C18"], edits=[E(
+        "qkeras/estimate.py",
+        "      max_value = np.amax(np.abs(value))\n",
+        "      max_value = np.amax(value)\n")]),
+    "m87_train_begin_always_resets_quantizers": dict(expect=["C07"], edits=[E(
+        "qkeras/callbacks.py",
+        "    if not self.quantizers:\n      # Build a list",
+        "    if True:\n      # Build a list")]),
+    "m88_scheduler_skips_none_and_rest_of_list": dict(expect=["C07"], edits=[E(
+        "qkeras/callbacks.py",
+        "          for quantizer in quantizers:\n            if hasattr("
+        "quantizer, \"qnoise_factor\"):\n              all_quantizers."
+        "append(quantizer)\n",
+        "          for quantizer in quantizers:\n            if quantizer is "
+        "None:\n              break\n            if hasattr("
+        "quantizer, \"qnoise_factor\"):\n              all_quantizers."
+        "append(quantizer)\n")]),
+    "m89_frozen_model_gets_exported_weights": dict(expect=["C14"], edits=[E(
+        U, "  new_model.set_weights(orig_model.get_weights())\n",
+        "  new_model.set_weights(quantized_model.get_weights())\n")]),
+    "m90_freeze_exports_the_original_model": dict(expect=["C14"], edits=[E(
+        U, "  orig_hw_weights = model_save_quantized_weights(\n"
+        "      quantized_model)\n",
+        "  orig_hw_weights = model_save_quantized_weights(\n"
+        "      orig_model)\n  quantized_model = orig_model\n")]),
+    "m91_frozen_quantizer_kept_from_previous_layer": dict(
+        expect=["C14"], edits=[
+            E(U, "  for layer in quantized_model.layers[1:]:\n"
+              "    layer_class = layer.__class__.__name__\n",
+              "  auto_po2_quantizer_with_frozen_scale = None\n"
+              "  for layer in quantized_model.layers[1:]:\n"
+              "    layer_class = layer.__class__.__name__\n"),
+            E(U, "    auto_po2_quantizer_with_frozen_scale = (\n"
+              "        _create_quantized_bits_with_post_training_scale("
+              "auto_po2_quantizer))\n",
+              "    if auto_po2_quantizer is not None:\n"
+              "      auto_po2_quantizer_with_frozen_scale = (\n"
+              "          _create_quantized_bits_with_post_training_scale(\n"
+              "              auto_po2_quantizer))\n")]),
 }
 
 BENIGN = {
@@ -679,4 +727,40 @@ BENIGN = {
         "        # exact extremes of sum(w * x) + b over the input range\n"
         "        n1 = npp * x_max + nnn * x_min + b[i]\n"
         "        n0 = - (nnn * x_max + npp * x_min + b[i])\n")]),
+    "b37_scheduler_getattr_default": dict(props=["C07"], edits=[E(
+        "qkeras/callbacks.py",
+        "        if hasattr(layer, attr):\n          quantizers = getattr("
+        "layer, attr)\n          quantizers = quantizers if attr == "
+        "\"quantizers\" else [quantizers]\n",
+        "        quantizers = getattr(layer, attr, None)\n        if "
+        "quantizers is not None:\n          quantizers = quantizers if attr "
+        "== \"quantizers\" else [quantizers]\n")]),
+    "b38_freeze_dispatch_by_table": dict(props=["C14"], edits=[E(
+        U, '    if layer_class == "QConv2D":\n      x = _create_qconv2d_layer('
+        'layer_cfg,\n                                '
+        'auto_po2_quantizer_with_frozen_scale)(x)\n    elif layer_class == '
+        '"QDepthwiseConv2D":\n      x = _create_qdepthwise_conv2d_layer(\n'
+        '          layer_cfg, auto_po2_quantizer_with_frozen_scale)(x)\n'
+        '    elif layer_class == "QBatchNormalization":\n      x = '
+        '_create_bn_layer(layer_cfg,\n                           '
+        'auto_po2_quantizer_with_frozen_scale)(x)\n    elif layer_class == '
+        '"QDense":\n      x = _create_qdense_layer(layer_cfg,\n'
+        '                               '
+        'auto_po2_quantizer_with_frozen_scale)(x)\n    else:\n      x = '
+        '_create_other_layer(layer)(x)\n',
+        '    creators = {\n        "QConv2D": _create_qconv2d_layer,\n'
+        '        "QDepthwiseConv2D": _create_qdepthwise_conv2d_layer,\n'
+        '        "QBatchNormalization": _create_bn_layer,\n'
+        '        "QDense": _create_qdense_layer,\n    }\n'
+        '    if layer_class in creators:\n      new_layer = creators['
+        'layer_class](\n          layer_cfg, '
+        'auto_po2_quantizer_with_frozen_scale)\n    else:\n      new_layer '
+        '= _create_other_layer(layer)\n    x = new_layer(x)\n')]),
+    "b39_tanh_from_internal_sigmoid_rewritten": dict(props=["C02", "C01",
+                                                            "C06"],
+                                                     edits=[E(
+        Q, "    p = K.tanh(x) if self.use_real_tanh else 2.0 * _sigmoid(x) "
+        "- 1.0\n",
+        "    p = K.tanh(x) if self.use_real_tanh else (_sigmoid(x) - 0.5) "
+        "* 2.0\n")]),
 }
